@@ -6,31 +6,7 @@
 #define ZSTD_VERIF_LOOP(...)  __VA_ARGS__
 #define ZSTD_VERIF_GHOST(...) __VA_ARGS__
 
-/* ---- generic ghost state (verification-only): written by hooks and by the stubs in /verif/stubs ----
- * One object, so that any loop contract can name it in its frame (ZSTD_VERIF_GHOST_FRAME). */
-#include <stddef.h>
-struct zstd_verif_ghost_s {
-    unsigned bits_high;          /* highest value DStream.bitsConsumed reached since the harness reset it */
-    void*    memmove_last_dst;   /* last memmove seen by stubs/mem_sampled.c */
-    size_t   memmove_last_len;
-    unsigned memmove_calls;
-    unsigned long long xxh_last_digest;   /* value returned by the last XXH64_digest stub call */
-    unsigned long long xxh_bytes;         /* bytes fed to XXH64_update since the last XXH64_reset */
-    const void* range_start;              /* a range returned by a callee that was replaced by its contract */
-    size_t range_size;
-    unsigned long long io_pos;            /* ghost file position maintained by the fwrite / fseek stubs */
-    size_t   io_k;                        /* ghost byte index into the buffer handed to the sparse writer (chosen by the harness) */
-    int      io_covered;                  /* that byte has been passed to fwrite */
-    unsigned long long frames_bytes;      /* input bytes consumed by frames the frame decoder accepted (its contract's ghost effect) */
-    unsigned long long frames_out;        /* output bytes those frames regenerated */
-    unsigned long long skipped_bytes;     /* input bytes skipped as skippable frames by ZSTD_decompressMultiFrame */
-    unsigned long long chunk_src_bytes;   /* ZSTD_compress_frameChunk: input bytes put into blocks so far */
-    unsigned long long chunk_blocks;      /* blocks emitted: 0, 1, 2 = several (saturating) */
-    unsigned chunk_last_seen;             /* a block carrying the last-block flag has been emitted */
-    size_t   cell_idx;                    /* ghost cell of a table-transforming loop: index chosen by the harness, */
-    unsigned cell_old, cell_new;          /* its value before the loop and the value the specification gives it   */
-};
-extern struct zstd_verif_ghost_s zstd_verif_ghost;
+#include "zstd_verif_ghost.h"
 #define ZSTD_VERIF_GHOST_FRAME __CPROVER_object_whole(&zstd_verif_ghost)
 /* A pointer havocked by a loop contract may, for CBMC's symbolic execution, point to ANY address-taken object of the
  * program (the invariant's same_object fact does not narrow its points-to set), so every access through it fans out over
